@@ -74,7 +74,15 @@ def run(ctx):
             else:
                 ctx.ok("C12-R2", "par(): without GV the result (self.solve()) is independent of gv_weight", b.loc())
             none_ret = [show(e) for bb, e, item in paths.return_exprs(b, eb) if not any(g[0] == "some" for g in paths.guards(b, bb, eb))]
-            if none_ret == ["mlpg_adjust::mlpg::MlpgMatrix::solve(self)"]:
+            # (solve() written out - factorise, then substitute - is the same value; that the
+            # substitution sits behind a factorisation is C05-R5's who-may-call clause)
+            M_ = "mlpg_adjust::mlpg::MlpgMatrix::"
+            inl_ = none_ret == [M_ + "substitutions(self)"] and any(
+                fbb in b.dominators().get(sbb, ()) and fbb != sbb
+                for fbb, ft in cm.local_calls(b, p, exact=M_ + "ldl_factorization")
+                for sbb, st_ in cm.local_calls(b, p, exact=M_ + "substitutions")
+                if not any(g[0] == "some" for g in paths.guards(b, sbb, eb)))
+            if none_ret == ["mlpg_adjust::mlpg::MlpgMatrix::solve(self)"] or inl_:
                 ctx.ok("C12-R2", "the GV-less path returns the plain ML solution self.solve()", b.loc())
             else:
                 ctx.fail("C12-R2", PAR, "GV-less return", "the GV-less path returns %s" % none_ret, b.loc())
